@@ -316,6 +316,8 @@ func runC09(r *Run) {
 		r.Check(lim["startTime <="] && lim["endTime >="], "R4", fnID(fn)+"#limits", P.Pos(fnPos(fn)), "readTime <= startTime and readTime >= endTime are handled up front",
 			fmt.Sprintf("the limit guards are %v, expected readTime <= startTime (nothing yet) and readTime >= endTime (everything)", keysOf(lim)))
 	}
+	r.Rule("R7", "PATH.merge-emits-every-event: in DisjunctPeriods every function that appends to the merged period list appends on every path through it — each consumed release event of either schedule becomes a period of the result at its own time — and an already-emitted period is modified in place only where the event's time equals the time of the last emitted event (the one case in which folding two events leaves the released-by-t function unchanged)")
+	checkMergeEmits(r, "R7")
 	r.Rule("R5", "FLOW.grant-start: the start time handed to addGrant (which DisjunctPeriods takes as the start of the grant's own periods) derives from the grant's start — a parameter or message field of the calling function — and never from the target account's StartTime")
 	checkGrantStart(r, "R5")
 	_ = fmt.Sprint
@@ -435,4 +437,120 @@ func onlyMsgField(s *Slice, sn, f string) bool {
 		return false
 	})
 	return has && !other
+}
+
+// checkMergeEmits (C09 R7): DisjunctPeriods is the union of release events. Structural part: the emitting
+// closure appends exactly when it is called (no path around the append), and no emitted period is rewritten
+// except under an equality of event times. Folding an event into a period emitted for a different time moves
+// the release (zero-length periods of a later-starting grant would unlock at the earlier schedule's event).
+func checkMergeEmits(r *Run, rule string) {
+	P := r.P
+	dp, ok := P.FnOK("x/vesting/types.DisjunctPeriods")
+	if !ok {
+		r.Bad(rule, "anchor/DisjunctPeriods", "", "not found")
+		return
+	}
+	isPeriodList := func(t types.Type) bool {
+		if p, ok := t.Underlying().(*types.Pointer); ok {
+			t = p.Elem()
+		}
+		sl, ok := t.Underlying().(*types.Slice)
+		return ok && namedName(sl.Elem()) == "Period"
+	}
+	// time-equality edges: x == y where both are int64 and at least one is a parameter of the function or a captured/loaded time
+	timeEq := func(fn *ssa.Function) []Edge {
+		eq, _ := condEdgesInfo(fn, func(x, y ssa.Value) (string, bool) {
+			bx, ok1 := x.Type().Underlying().(*types.Basic)
+			by, ok2 := y.Type().Underlying().(*types.Basic)
+			if !ok1 || !ok2 || bx.Kind() != types.Int64 || by.Kind() != types.Int64 {
+				return "", false
+			}
+			if _, isC := x.(*ssa.Const); isC {
+				return "", false
+			}
+			if _, isC := y.(*ssa.Const); isC {
+				return "", false
+			}
+			// neither side may be a Period.Length itself (a length is a duration, not an event time)
+			for _, v := range []ssa.Value{x, y} {
+				if u, ok := stripValue(v).(*ssa.UnOp); ok && u.Op == token.MUL {
+					if _, f, ok := fieldOfAddr(u.X); ok && f == "Length" {
+						return "", false
+					}
+				}
+				if _, f, ok := fieldOfValue(stripValue(v)); ok && f == "Length" {
+					return "", false
+				}
+			}
+			return "time-equality", true
+		})
+		var out []Edge
+		for _, e := range eq {
+			out = append(out, e.E)
+		}
+		return out
+	}
+	nEmit, nInPlace := 0, 0
+	for _, fn := range withAnon(dp) {
+		var appendStores []ssa.Instruction
+		var inPlace []ssa.Instruction
+		eachInstr(fn, func(in ssa.Instruction) {
+			st, ok := in.(*ssa.Store)
+			if !ok {
+				return
+			}
+			// append to the merged list: *periods = append(*periods, …)
+			if isPeriodList(st.Addr.Type()) {
+				if c, ok := stripValue(st.Val).(*ssa.Call); ok {
+					if b, ok := c.Call.Value.(*ssa.Builtin); ok && b.Name() == "append" {
+						appendStores = append(appendStores, in)
+						return
+					}
+				}
+			}
+			// in-place write into an element of a period list that is not a parameter (= the result under construction)
+			root := st.Addr
+			for {
+				switch x := root.(type) {
+				case *ssa.FieldAddr:
+					root = x.X
+					continue
+				case *ssa.IndexAddr:
+					if isPeriodList(x.X.Type()) {
+						if _, isParam := stripValue(x.X).(*ssa.Parameter); !isParam {
+							// locally built literal slices (append argument construction) are Alloc-rooted arrays, not lists
+							inPlace = append(inPlace, in)
+						}
+					}
+				}
+				break
+			}
+		})
+		bypass := edgeSet(timeEq(fn))
+		if len(appendStores) > 0 && fn != dp {
+			nEmit++
+			isApp := func(in ssa.Instruction) bool {
+				for _, a := range appendStores {
+					if a == in {
+						return true
+					}
+				}
+				return false
+			}
+			isRet := func(in ssa.Instruction) bool { _, ok := in.(*ssa.Return); return ok }
+			w := PathQuery{Fn: fn, Block: isApp, Target: isRet, DelEdge: bypass}.Search()
+			r.Check(w == nil, rule, fnID(fn)+"#appends-on-every-path", P.Pos(fnPos(fn)), "the emitting closure appends a period on every path (except where the event time equals the last emitted time)",
+				"a path through the emitting closure of DisjunctPeriods returns without appending a period and without a time-equality guard: a consumed release event is dropped or folded into an event of a different time, so the merged schedule is no longer the union of both schedules' release events", P.witness(w)...)
+		}
+		for i, st := range inPlace {
+			nInPlace++
+			isThis := func(in ssa.Instruction) bool { return in == st }
+			w := PathQuery{Fn: fn, Target: isThis, DelEdge: bypass}.Search()
+			r.Check(w == nil, rule, fmt.Sprintf("%s#in-place-%d", fnID(fn), i+1), P.Pos(instrPos(st)), "an emitted period is rewritten only where the event time equals the last emitted time",
+				"DisjunctPeriods rewrites an already-emitted period without comparing the event's time with the last emitted time: the amount is released at a different instant than its own schedule says", P.witness(w)...)
+		}
+	}
+	r.Count("R7 emitting closures of DisjunctPeriods", nEmit)
+	r.Count("R7 in-place writes to emitted periods", nInPlace)
+	r.Floor(rule, "emitting closures of DisjunctPeriods", nEmit, 1)
 }
